@@ -156,7 +156,7 @@ theorem U19_balance (cx : Ctx) (h : NumIs cx Unparse.noPrec) (hw : LayoutW cx.w)
     (hshort : strWidth cx.w (Unparse.printClear p.clear ++ p.account.toList) + 3
                 < 50 + strWidth cx.w ((Unparse.printVExpr b).drop (Unparse.alignVExpr b))) :
     Unparse.printPosting (strWidth cx.w) p
-      = beforeEq cx p ++ '=' :: ' ' :: Unparse.printVExpr b ++ '\n' :: metaText p
+      = beforeEq cx p ++ ('=' :: ' ' :: (Unparse.printVExpr b ++ '\n' :: metaText p))
     ∧ beforeEq cx p = spaces 4 ++ Unparse.printClear p.clear ++ p.account.toList ++ spaces (gapWidth cx p)
     ∧ strWidth cx.w (beforeEq cx p) = 53 + strWidth cx.w ((Unparse.printVExpr b).drop (Unparse.alignVExpr b)) := by
   rw [printClear_eq, ← afterNumeric_unparse cx h] at hshort
@@ -164,6 +164,7 @@ theorem U19_balance (cx : Ctx) (h : NumIs cx Unparse.noPrec) (hw : LayoutW cx.w)
   have hd : postingDatesOK p = true := by simp [postingDatesOK, ha]
   refine ⟨?_, ?_, ?_⟩
   · rw [U19_posting cx h hw.clearOK p hd, this.1, printVExpr_eq cx h]
+    simp
   · simp [beforeEq, ha, printClear_eq]
   · rw [← afterNumeric_unparse cx h]; exact this.2
 
@@ -193,8 +194,8 @@ theorem U19_balance_same_column (cx : Ctx) (h : NumIs cx Unparse.noPrec) (hw : L
     (hshort : strWidth cx.w (Unparse.printClear p.clear ++ p.account.toList)
                 + ((Unparse.printVExpr a.amount).take (Unparse.alignVExpr a.amount)).length + 2 < 48) :
     ∃ pre qre : List Char,
-      Unparse.printPosting (strWidth cx.w) p = pre ++ '=' :: ' ' :: Unparse.printVExpr b ++ '\n' :: metaText p
-      ∧ Unparse.printPosting (strWidth cx.w) q = qre ++ '=' :: ' ' :: Unparse.printVExpr bq ++ '\n' :: metaText q
+      Unparse.printPosting (strWidth cx.w) p = pre ++ ('=' :: ' ' :: (Unparse.printVExpr b ++ '\n' :: metaText p))
+      ∧ Unparse.printPosting (strWidth cx.w) q = qre ++ ('=' :: ' ' :: (Unparse.printVExpr bq ++ '\n' :: metaText q))
       ∧ strWidth cx.w qre = strWidth cx.w pre := by
   have hnum := numOK_of_numIs h hw.num
   rw [printClear_eq, ← numericPart_unparse cx h] at hshort
@@ -204,7 +205,9 @@ theorem U19_balance_same_column (cx : Ctx) (h : NumIs cx Unparse.noPrec) (hw : L
   refine ⟨beforeEq cx p, beforeEq cx q, ?_, ?_,
     C19_balance_same_column cx hnum hw.sym p q b a hpa hpb hqa hlot hcost hacc hclear hsame hshort⟩
   · rw [U19_posting cx h hw.clearOK p hdp, postingHead_balance cx p b hpb, printVExpr_eq cx h]
+    simp
   · rw [U19_posting cx h hw.clearOK q hdq, postingHead_balance cx q bq hqb, printVExpr_eq cx h]
+    simp
 
 /-! ## whole transactions and ledgers -/
 
@@ -297,38 +300,50 @@ example : Unparse.printPosting w0 pWide
     = "    ! 資産:銀行                                   5 USD [2020/01/02] @ 0.3 USD = 7 USD\n".toList := by decide +kernel
 example : Unparse.printPosting w0 pBal
     = "    Account                                              = 1 USD\n".toList := by decide +kernel
-example : Unparse.printPosting w0 pLong
-    = "    Liabilities:CreditCard:SomeVeryLongBankName:AnotherSegment:limit  = 0\n".toList := by decide +kernel
-
 example : NumIs cx0 Unparse.noPrec ∧ LayoutW cx0.w := ⟨std_numIs _, layoutW_widthCjk⟩
--- U19_gap
-example : 2 ≤ gapWidth cx0 pLong := (U19_gap cx0 (std_numIs _) (std_clearOK _) pLong (by decide)).2 (by decide)
--- U19_column: an ASCII account and a wide one (clear mark, lot date, cost, balance after the amount)
+-- U19_gap, U19_column (an ASCII account; a wide one with clear mark, lot date, cost and a balance after the amount)
+example : 2 ≤ gapWidth cx0 pLong := (U19_gap cx0 (std_numIs _) (std_clearOK _) pLong (by decide +kernel)).2 (by decide +kernel)
 example : strWidth widthCjk (headUpToNumber cx0 pAmt { amount := usd 12345 2 }) = 52 :=
-  (U19_column cx0 (std_numIs _) layoutW_widthCjk pAmt _ (by decide) rfl (by decide +kernel)).2.2
-example : ∃ head rest, Unparse.printPosting (strWidth widthCjk) pWide = head ++ rest ∧ _ ∧ strWidth widthCjk head = 52 :=
-  U19_column_std pWide _ (by decide +kernel) rfl (by decide +kernel)
+  (U19_column cx0 (std_numIs _) layoutW_widthCjk pAmt _ (by decide +kernel) rfl (by decide +kernel)).2.2
+example : ∃ head rest, Unparse.printPosting (strWidth widthCjk) pWide = head ++ rest ∧ strWidth widthCjk head = 52 := by
+  obtain ⟨hd, rest, h1, _, h3⟩ := U19_column_std pWide { amount := usd 5 0, lot := { date := some ⟨2020, 1, 2⟩ }, cost := some (.rate (usd 3 1)) }
+    (by decide +kernel) rfl (by decide +kernel)
+  exact ⟨hd, rest, h1, h3⟩
 example : (headUpToNumber cx0 pWide { amount := usd 5 0 }).length = 48 := by decide +kernel  -- 4 wide characters
--- U19_fallback / U19_balance_fallback: long accounts
-example : Unparse.printPosting w0 pLongAmt = _ :=
-  U19_fallback cx0 (std_numIs _) layoutW_widthCjk pLongAmt _ (by decide) rfl (by decide +kernel)
-example : Unparse.printPosting w0 pLong = _ :=
-  U19_balance_fallback cx0 (std_numIs _) layoutW_widthCjk pLong _ rfl rfl (by decide +kernel)
--- U19_balance: `=` after 53 + 4 columns (the width of " USD"), with and without an amount before it
-example : strWidth widthCjk (beforeEq cx0 pBal) = 53 + strWidth widthCjk " USD".toList :=
-  (U19_balance cx0 (std_numIs _) layoutW_widthCjk pBal (usd 1 0) rfl rfl (by decide +kernel)).2.2
-example : ∃ pre qre : List Char, Unparse.printPosting w0 pBal = pre ++ _ ∧ Unparse.printPosting w0 pAssert = qre ++ _
-    ∧ strWidth widthCjk qre = strWidth widthCjk pre :=
-  U19_balance_same_column cx0 (std_numIs _) layoutW_widthCjk pBal pAssert (usd 1 0) (usd 2 0) { amount := usd 1 0 }
-    rfl rfl rfl rfl rfl rfl rfl rfl (by decide +kernel) (by decide +kernel)
+-- U19_fallback / U19_balance_fallback: long accounts get exactly two blanks
+example : Unparse.printPosting w0 pLongAmt
+    = "    Liabilities:CreditCard:SomeVeryLongBankName:AnotherSegment:limit  5 USD\n".toList := by
+  have := U19_fallback cx0 (std_numIs _) layoutW_widthCjk pLongAmt { amount := usd 5 0 } (by decide +kernel) rfl (by decide +kernel)
+  rw [show w0 = strWidth cx0.w from rfl, this]
+  decide +kernel
+example : Unparse.printPosting w0 pLong
+    = "    Liabilities:CreditCard:SomeVeryLongBankName:AnotherSegment:limit  = 0\n".toList := by
+  have := U19_balance_fallback cx0 (std_numIs _) layoutW_widthCjk pLong (.amt ⟨false, 0, 0, none⟩ "") rfl rfl (by decide +kernel)
+  rw [show w0 = strWidth cx0.w from rfl, this]
+  decide +kernel
+-- U19_balance: `=` after 53 + 4 columns (the width of ` USD`), with and without an amount before it
+example : strWidth widthCjk (beforeEq cx0 pBal) = 53 + 4 := by
+  have := (U19_balance cx0 (std_numIs _) layoutW_widthCjk pBal (usd 1 0) rfl rfl (by decide +kernel)).2.2
+  refine this.trans ?_
+  decide +kernel
+example : ∃ pre qre : List Char, Unparse.printPosting w0 pBal = pre ++ "= 1 USD\n".toList
+    ∧ Unparse.printPosting w0 pAssert = qre ++ "= 2 USD\n".toList
+    ∧ strWidth widthCjk qre = strWidth widthCjk pre := by
+  obtain ⟨pre, qre, h1, h2, h3⟩ :=
+    U19_balance_same_column cx0 (std_numIs _) layoutW_widthCjk pBal pAssert (usd 1 0) (usd 2 0) { amount := usd 1 0 }
+      rfl rfl rfl rfl rfl rfl rfl rfl (by decide +kernel) (by decide +kernel)
+  have e1 : '=' :: ' ' :: (Unparse.printVExpr (usd 1 0) ++ '\n' :: metaText pBal) = "= 1 USD\n".toList := by decide +kernel
+  have e2 : '=' :: ' ' :: (Unparse.printVExpr (usd 2 0) ++ '\n' :: metaText pAssert) = "= 2 USD\n".toList := by decide +kernel
+  exact ⟨pre, qre, e1 ▸ h1, e2 ▸ h2, h3⟩
 -- U19_indent / U19_blank
 example : txnDatesOK tEx = true := by decide +kernel
 example : ∀ e ∈ [Entry.txn tEx, .comment " top\n second\n", .include "a.ledger"], datesOK e = true := by decide +kernel
 example : linesOf (Unparse.formatEntries w0 [.comment " top\n second\n", .include "a.ledger"])
     = ["; top".toList, "; second".toList, [], "include a.ledger".toList, []] := by decide +kernel
-example : linesOf (Unparse.formatEntries w0 [.comment " top\n second\n", .include "a.ledger"]) = _ :=
+example : linesOf (Unparse.formatEntries w0 [.comment " top\n second\n", .include "a.ledger"])
+    = [.comment " top\n second\n", .include "a.ledger"].flatMap (fun e => linesOf (Unparse.printEntry w0 e) ++ [[]]) :=
   (U19_blank cx0 (std_numIs _) (std_clearOK _) [.comment " top\n second\n", .include "a.ledger"]
-    (by decide) (by
+    (by decide +kernel) (by
       intro e he
       simp only [List.mem_cons, List.not_mem_nil, or_false] at he
       rcases he with rfl | rfl
